@@ -5,7 +5,8 @@ import os
 import vt
 
 LEVEL = "model_checking"
-BUILDS = [(("drv_c04", ["drv_c04.cpp"]), {"flags": ["-O0", "-I" + os.path.join(vt.HARNESS, "mpishim")]})]
+BUILDS = [(("drv_c04", ["drv_c04.cpp"]), {"flags": ["-O0", "-I" + os.path.join(vt.HARNESS, "mpishim")]}),
+          (("drv_c04_mpi", ["drv_c04.cpp"]), {"flags": ["-O0", "-DVT_REAL_MPI"], "cxx": "mpicxx"})]
 ACTIONS = ("MRun", "SerialIter", "SerialFinal", "Eval", "Enter", "Leave", "Add", "Ret", "Returned", "MEnd")
 
 
@@ -75,15 +76,15 @@ def merge_ranks(paths):
     return merged
 
 
-def real_mpi(chk):
-    """thorough tier: the same driver under real Open MPI"""
+def real_mpi(chk, nps=(1, 2, 3, 5)):
+    """the same driver under real Open MPI (quick: np = 2; thorough: 1, 2, 3, 5)"""
     import shutil
     import subprocess
-    exe = vt.build("drv_c04_mpi", ["drv_c04.cpp"], flags=["-O0", "-DVT_REAL_MPI"], cxx="mpicxx")
+    exe = vt.build(*BUILDS[1][0], **BUILDS[1][1])
     work = chk.path("mpi")
     os.makedirs(work, exist_ok=True)
     total = []
-    for np_ in (1, 2, 3, 5):
+    for np_ in nps:
         base = os.path.join(work, "t%d.ndjson" % np_)
         r = subprocess.run(["mpirun", "--allow-run-as-root", "--oversubscribe", "-np", str(np_), exe, base, str(chk.seed + np_), "0"],
                            stdout=subprocess.PIPE, stderr=subprocess.STDOUT, text=True, timeout=900)
@@ -95,7 +96,7 @@ def real_mpi(chk):
     shutil.rmtree(work, ignore_errors=True)
     rows = total
     ok, matched, res = chk.validate("Trace_C04", trace, need_actions=("MRun", "Eval", "Enter", "Leave", "Add", "Returned"), timeout=1200,
-                                    what="trace: real Open MPI, np in {1,2,3,5}")
+                                    what="trace: real Open MPI, np in %s" % (list(nps),))
     chk.cov["real_mpi_runs"] = sum(1 for r in rows if r["e"] == "MRun")
     if not ok:
         bad = rows[matched] if matched < len(rows) else None
@@ -131,8 +132,9 @@ def run(chk, replay=None):
         bad = rows[matched] if matched < len(rows) else None
         ctx = [r for r in rows[:matched + 1] if r["e"] == "MRun"][-1:]
         chk.violation("C04:mpi", trace, "event %d rejected by Trace_C04: %s in run %s" % (matched + 1, str(bad)[:300], str(ctx)[:400]))
+    if ok and not replay:
+        real_mpi(chk, (1, 2, 3, 5) if thorough else (2,))
     if thorough and ok and not replay:
-        real_mpi(chk)
         bad = [dict(r) for r in rows]
         i = next(k for k, e in enumerate(bad) if e["e"] == "Eval" and e["rank"] == 1 and e["pos"] >= 0)
         bad[i]["pos"] += 64  # another call's stream position
